@@ -117,10 +117,15 @@ def stepBegin (st : BSt) (p : Path) : BSt :=
 def snapBucket (store : List Rec) (p : Path) (b : Bucket) : Bucket :=
   if b.path = p ∧ b.init = false ∧ b.snapshot = none then { b with snapshot := some store } else b
 
-def buildBucket (p : Path) (b : Bucket) : Bucket :=
+/-- what `BuildEquality` files for a snapshot: the snapshot holds treasure POINTERS, `extractKey`
+    reads each body as it is when the build runs (`store`: the swamp then) -/
+def builtOf (p : Path) (s store : List Rec) : Entries :=
+  fun k => (findRec k s).map (fun r0 => entOf p ((findRec k store).getD r0))
+
+def buildBucket (store : List Rec) (p : Path) (b : Bucket) : Bucket :=
   if b.path = p ∧ b.init = false then
     (match b.snapshot with
-     | some s => { b with ents := entsOf p s, dom := s.map (·.key), init := true }
+     | some s => { b with ents := builtOf p s store, dom := s.map (·.key), init := true }
      | none => b)
   else b
 
@@ -137,16 +142,19 @@ def stepB (cfg : Cfg) (st : BSt) : MOp → BSt
   | .reload => { st with buckets := [] }
   | .beginBuild p => stepBegin st p
   | .snapshot p => { st with buckets := st.buckets.map (snapBucket st.store p) }
-  | .build p => { st with buckets := st.buckets.map (buildBucket p) }
+  | .build p => { st with buckets := st.buckets.map (buildBucket st.store p) }
   | .drain p => { st with buckets := st.buckets.map (drainBucket cfg st.store p) }
 
 def runB (cfg : Cfg) (h : List MOp) : BSt := h.foldl (stepB cfg) BSt.init
 
-/-- `GetOrBuildBucket(p)` of a sequential caller -/
-def ensureBuilt (cfg : Cfg) (st : BSt) (p : Path) : BSt :=
-  [MOp.beginBuild p, .snapshot p, .build p, .drain p].foldl (stepB cfg) st
-
 def bucketFor (st : BSt) (p : Path) : Option Bucket := st.buckets.find? (fun b => b.path = p)
+
+/-- `GetOrBuildBucket(p)` as a reader runs it: a bucket that is `EqualityInitialized` is used as it
+    is (fast path) — even while its builder has not drained the buffer yet, unless the reader drains;
+    otherwise publish (if absent), snapshot, build, drain. -/
+def ensureBuilt (cfg : Cfg) (st : BSt) (p : Path) : BSt :=
+  if !cfg.readerDrainsInFlight && st.buckets.any (fun b => decide (b.path = p) && b.init) then st
+  else [MOp.beginBuild p, .snapshot p, .build p, .drain p].foldl (stepB cfg) st
 
 /-! ### lookups (the order of a lookup is the map's; the model lists live records in store order) -/
 
@@ -361,11 +369,16 @@ theorem replay_append (p : Path) (store : List Rec) (e : Entries) (ops : List PO
     replay p store e (ops ++ [op]) = applyOp p store (replay p store e ops) op := by
   simp [replay, List.foldl_append]
 
+theorem builtOf_self (p : Path) (s : List Rec) : builtOf p s s = entsOf p s := by
+  funext k
+  simp only [builtOf, entsOf]
+  cases findRec k s <;> rfl
+
 /-- what the build starts from -/
 def baseOf (b : Bucket) (store : List Rec) : Entries :=
   if b.init then b.ents else
   match b.snapshot with
-  | some s => entsOf b.path s
+  | some s => builtOf b.path s store
   | none => entsOf b.path store
 
 /-- a bucket is consistent with the swamp: settled → it files exactly the live records under the
@@ -378,8 +391,14 @@ structure BucketOk (store : List Rec) (b : Bucket) : Prop where
 def BOk (st : BSt) : Prop := ∀ b ∈ st.buckets, BucketOk st.store b
 
 /-- the facts under which every mutation reaches the buckets -/
-def trackGoodB (cfg : Cfg) : Bool :=
+def notifyGoodB (cfg : Cfg) : Bool :=
   cfg.bucketNotifyInsert && cfg.bucketNotifyUpdate && cfg.bucketNotifyDelete && cfg.bucketPendingReplayed
+
+/-- …and every reader finds its bucket settled -/
+def trackGoodB (cfg : Cfg) : Bool := notifyGoodB cfg && cfg.readerDrainsInFlight
+
+theorem notifyGood_of (cfg : Cfg) (h : trackGoodB cfg = true) : notifyGoodB cfg = true := by
+  simp only [trackGoodB, Bool.and_eq_true] at h; exact h.1
 
 theorem bucketOk_upsert (store : List Rec) (r : Rec) (b : Bucket) (h : BucketOk store b) :
     BucketOk (putRec r store) (onOp (putRec r store) (.upsert r) b) := by
@@ -404,7 +423,7 @@ theorem bucketOk_upsert (store : List Rec) (r : Rec) (b : Bucket) (h : BucketOk 
     · simp only [hj, if_false]
       rw [← ih]
       apply replay_congr
-      · cases hi : b.init <;> cases hs : b.snapshot <;> simp [baseOf, hi, hs, entsOf, findRec_put, hj]
+      · cases hi : b.init <;> cases hs : b.snapshot <;> simp [baseOf, hi, hs, entsOf, builtOf, findRec_put, hj]
       · simp only [findRec_put, hj, if_false]
 
 theorem bucketOk_delete (store : List Rec) (k : String) (b : Bucket) (h : BucketOk store b) :
@@ -430,11 +449,11 @@ theorem bucketOk_delete (store : List Rec) (k : String) (b : Bucket) (h : Bucket
     · simp only [hj, if_false]
       rw [← ih]
       apply replay_congr
-      · cases hi : b.init <;> cases hs : b.snapshot <;> simp [baseOf, hi, hs, entsOf, findRec_filter_ne, hj]
+      · cases hi : b.init <;> cases hs : b.snapshot <;> simp [baseOf, hi, hs, entsOf, builtOf, findRec_filter_ne, hj]
       · simp only [findRec_filter_ne, hj, if_false]
 
-theorem bOk_step (cfg : Cfg) (hg : trackGoodB cfg = true) (st : BSt) (op : MOp) (h : BOk st) : BOk (stepB cfg st op) := by
-  simp only [trackGoodB, Bool.and_eq_true] at hg
+theorem bOk_step (cfg : Cfg) (hg : notifyGoodB cfg = true) (st : BSt) (op : MOp) (h : BOk st) : BOk (stepB cfg st op) := by
+  simp only [notifyGoodB, Bool.and_eq_true] at hg
   obtain ⟨⟨⟨hI, hU⟩, hD⟩, hR⟩ := hg
   cases op with
   | put r =>
@@ -475,7 +494,7 @@ theorem bOk_step (cfg : Cfg) (hg : trackGoodB cfg = true) (st : BSt) (op : MOp) 
       refine ⟨fun hf => ?_, fun hf => ?_⟩
       · have := (h0.settled hf).1; rw [hi] at this; cases this
       · have := h0.flying hf
-        simpa [baseOf, hi, hs] using this
+        simpa [baseOf, hi, hs, builtOf_self] using this
     · exact h0
   | build p =>
     simp only [stepB]
@@ -509,7 +528,7 @@ theorem bOk_step (cfg : Cfg) (hg : trackGoodB cfg = true) (st : BSt) (op : MOp) 
       simpa [baseOf, hi, hR] using this
     · rw [if_neg hc]; exact h0
 
-theorem bOk_run (cfg : Cfg) (hg : trackGoodB cfg = true) (h : List MOp) : BOk (runB cfg h) := by
+theorem bOk_run (cfg : Cfg) (hg : notifyGoodB cfg = true) (h : List MOp) : BOk (runB cfg h) := by
   unfold runB
   suffices ∀ st, BOk st → BOk (h.foldl (stepB cfg) st) from this _ (by intro b hb; simp [BSt.init] at hb)
   induction h with
@@ -519,7 +538,7 @@ theorem bOk_run (cfg : Cfg) (hg : trackGoodB cfg = true) (h : List MOp) : BOk (r
 /-- **The bucket tracks the store.**  After any history of saves, deletes, reloads and build steps
     (mutations may fall between the steps of a build), every settled bucket maps exactly the live
     records, each to the canonical key of the hinted field in its CURRENT body. -/
-theorem bucket_tracks_store (cfg : Cfg) (hg : trackGoodB cfg = true) (h : List MOp) :
+theorem bucket_tracks_store (cfg : Cfg) (hg : notifyGoodB cfg = true) (h : List MOp) :
     ∀ b ∈ (runB cfg h).buckets, b.init = true → b.inFlight = false →
       b.ents = entsOf b.path (runB cfg h).store ∧ b.pending = [] := by
   intro b hb _ hf
@@ -529,18 +548,24 @@ theorem bucket_tracks_store (cfg : Cfg) (hg : trackGoodB cfg = true) (h : List M
 /-! ### a sequential query finds its bucket settled -/
 
 theorem ensureBuilt_store (cfg : Cfg) (st : BSt) (p : Path) : (ensureBuilt cfg st p).store = st.store := by
-  simp only [ensureBuilt, List.foldl_cons, List.foldl_nil, stepB, stepBegin]
-  split <;> rfl
+  unfold ensureBuilt
+  split
+  · rfl
+  · simp only [List.foldl_cons, List.foldl_nil, stepB, stepBegin]
+    split <;> rfl
 
-theorem bOk_ensureBuilt (cfg : Cfg) (hg : trackGoodB cfg = true) (st : BSt) (p : Path) (h : BOk st) :
+theorem bOk_ensureBuilt (cfg : Cfg) (hg : notifyGoodB cfg = true) (st : BSt) (p : Path) (h : BOk st) :
     BOk (ensureBuilt cfg st p) := by
-  simp only [ensureBuilt, List.foldl_cons, List.foldl_nil]
-  exact bOk_step cfg hg _ _ (bOk_step cfg hg _ _ (bOk_step cfg hg _ _ (bOk_step cfg hg _ _ h)))
+  unfold ensureBuilt
+  split
+  · exact h
+  · simp only [List.foldl_cons, List.foldl_nil]
+    exact bOk_step cfg hg _ _ (bOk_step cfg hg _ _ (bOk_step cfg hg _ _ (bOk_step cfg hg _ _ h)))
 
 /-- flags of a bucket of path `p` after the four steps -/
 theorem settled_after (cfg : Cfg) (store : List Rec) (p : Path) (b : Bucket) (hp : b.path = p)
     (hflag : b.inFlight = false → b.init = true) :
-    let b' := drainBucket cfg store p (buildBucket p (snapBucket store p b))
+    let b' := drainBucket cfg store p (buildBucket store p (snapBucket store p b))
     b'.path = p ∧ b'.init = true ∧ b'.inFlight = false := by
   intro b'
   cases hi : b.init
@@ -556,13 +581,13 @@ theorem settled_after (cfg : Cfg) (store : List Rec) (p : Path) (b : Bucket) (hp
     · simp [b', snapBucket, buildBucket, drainBucket, hp, hi, hf]
     · simp [b', snapBucket, buildBucket, drainBucket, hp, hi, hf]
 
-theorem bucketFor_ensureBuilt (cfg : Cfg) (st : BSt) (p : Path)
+theorem bucketFor_ensureBuilt (cfg : Cfg) (hr : cfg.readerDrainsInFlight = true) (st : BSt) (p : Path)
     (hflag : ∀ b ∈ st.buckets, b.inFlight = false → b.init = true) :
     ∃ b, bucketFor (ensureBuilt cfg st p) p = some b ∧ b ∈ (ensureBuilt cfg st p).buckets ∧
       b.path = p ∧ b.init = true ∧ b.inFlight = false := by
   have key : ∀ (bs : List Bucket), (∀ b ∈ bs, b.inFlight = false → b.init = true) → bs.any (fun b => b.path = p) = true →
-      ∃ b, (bs.map (fun b => drainBucket cfg st.store p (buildBucket p (snapBucket st.store p b)))).find? (fun b => b.path = p) = some b ∧
-        b ∈ bs.map (fun b => drainBucket cfg st.store p (buildBucket p (snapBucket st.store p b))) ∧
+      ∃ b, (bs.map (fun b => drainBucket cfg st.store p (buildBucket st.store p (snapBucket st.store p b)))).find? (fun b => b.path = p) = some b ∧
+        b ∈ bs.map (fun b => drainBucket cfg st.store p (buildBucket st.store p (snapBucket st.store p b))) ∧
         b.path = p ∧ b.init = true ∧ b.inFlight = false := by
     intro bs
     induction bs with
@@ -573,7 +598,7 @@ theorem bucketFor_ensureBuilt (cfg : Cfg) (st : BSt) (p : Path)
       · have := settled_after cfg st.store p x hx (hfl x (by simp))
         refine ⟨_, ?_, by simp, this⟩
         simp [List.find?_cons, this.1]
-      · have hpath : (drainBucket cfg st.store p (buildBucket p (snapBucket st.store p x))).path = x.path := by
+      · have hpath : (drainBucket cfg st.store p (buildBucket st.store p (snapBucket st.store p x))).path = x.path := by
           simp [snapBucket, buildBucket, drainBucket, hx]
         have hany' : xs.any (fun b => b.path = p) = true := by
           simpa [List.any_cons, hx] using hany
@@ -598,9 +623,11 @@ theorem bucketFor_ensureBuilt (cfg : Cfg) (st : BSt) (p : Path)
       · simp only [List.mem_singleton] at hb; subst hb; intro hc; simp [newBucket] at hc
   obtain ⟨b, h1, h2, h3⟩ := key (stepBegin st p).buckets hfl' hany
   refine ⟨b, ?_, ?_, h3⟩
-  · simp only [bucketFor, ensureBuilt, List.foldl_cons, List.foldl_nil, stepB, List.map_map, hstore]
+  · simp only [bucketFor, ensureBuilt, hr, Bool.not_true, Bool.false_and, Bool.false_eq_true, if_false,
+      List.foldl_cons, List.foldl_nil, stepB, List.map_map, hstore]
     exact h1
-  · simp only [ensureBuilt, List.foldl_cons, List.foldl_nil, stepB, List.map_map, hstore]
+  · simp only [ensureBuilt, hr, Bool.not_true, Bool.false_and, Bool.false_eq_true, if_false,
+      List.foldl_cons, List.foldl_nil, stepB, List.map_map, hstore]
     exact h2
 
 /-! ### the stateful route is the specified one -/
@@ -649,8 +676,10 @@ theorem hint_tracked (cfg : Cfg) (hg : trackGoodB cfg = true) (st : BSt) (hs : S
     ∃ b, bucketFor (ensureBuilt cfg st h.path) h.path = some b ∧ b.path = h.path ∧ b.init = true ∧
       b.ents = entsOf h.path st.store := by
   have hflag : ∀ b ∈ st.buckets, b.inFlight = false → b.init = true := fun b hb hf => ((hs.ok b hb).settled hf).1
-  obtain ⟨b, h1, h2, h3, h4, h5⟩ := bucketFor_ensureBuilt cfg st h.path hflag
-  have hok := bOk_ensureBuilt cfg hg st h.path hs.ok b h2
+  have hr : cfg.readerDrainsInFlight = true := by
+    simp only [trackGoodB, Bool.and_eq_true] at hg; exact hg.2
+  obtain ⟨b, h1, h2, h3, h4, h5⟩ := bucketFor_ensureBuilt cfg hr st h.path hflag
+  have hok := bOk_ensureBuilt cfg (notifyGood_of cfg hg) st h.path hs.ok b h2
   obtain ⟨_, he, _⟩ := hok.settled h5
   refine ⟨b, h1, h3, h4, ?_⟩
   rw [he, h3, ensureBuilt_store]
@@ -736,7 +765,7 @@ theorem keysNodupQ_put (r : Rec) (store : List Rec) (h : KeysNodupQ store) : Key
       · rfl
     rw [this]; exact h
 
-theorem stGood_step (cfg : Cfg) (hg : trackGoodB cfg = true) (st : BSt) (op : MOp) (h : StGood st) : StGood (stepB cfg st op) := by
+theorem stGood_step (cfg : Cfg) (hg : notifyGoodB cfg = true) (st : BSt) (op : MOp) (h : StGood st) : StGood (stepB cfg st op) := by
   refine ⟨?_, bOk_step cfg hg st op h.ok⟩
   cases op with
   | put r => exact keysNodupQ_put r st.store h.nodup
@@ -753,7 +782,7 @@ theorem stGood_step (cfg : Cfg) (hg : trackGoodB cfg = true) (st : BSt) (op : MO
   | build p => exact h.nodup
   | drain p => exact h.nodup
 
-theorem stGood_run (cfg : Cfg) (hg : trackGoodB cfg = true) (h : List MOp) : StGood (runB cfg h) := by
+theorem stGood_run (cfg : Cfg) (hg : notifyGoodB cfg = true) (h : List MOp) : StGood (runB cfg h) := by
   unfold runB
   suffices ∀ st, StGood st → StGood (h.foldl (stepB cfg) st) from
     this _ ⟨by simp [BSt.init, KeysNodupQ], by intro b hb; simp [BSt.init] at hb⟩
@@ -765,6 +794,6 @@ theorem stGood_run (cfg : Cfg) (hg : trackGoodB cfg = true) (h : List MOp) : StG
     `Routes.lean` over the current store -/
 theorem bucketRouteS_run (cfg : Cfg) (hg : trackGoodB cfg = true) (h : List MOp) (q : Query) :
     bucketRouteS cfg (runB cfg h) q = bucketRoute cfg (runB cfg h).store q :=
-  bucketRouteS_eq cfg hg _ (stGood_run cfg hg h) q
+  bucketRouteS_eq cfg hg _ (stGood_run cfg (notifyGood_of cfg hg) h) q
 
 end Hv.Query
